@@ -297,8 +297,8 @@ class World:
                 lk.owner = tid
             return True
         if self._gated(tid):
-            cls = coll_class(_peek_collation(), self.mode)
-            self._post(tid, ('acquire', cls, lk.owner == tid and lk._l.locked()))
+            uri = _peek_collation()
+            self._post(tid, ('acquire', coll_class(uri, self.mode), lk.owner == tid and lk._l.locked(), uri))
             self._grant(tid)
             if not lk._l.acquire(False):
                 self.gate.acks.put((tid, 'lock_busy'))
@@ -473,7 +473,7 @@ def expected_posts(S, act, args) -> list[tuple]:
         return [('set', 'FB', args[1])]
     if act == 'RaiseFromEnter':
         return [('release',)] + ([] if child else [('drv', 'raised')])
-    if act == 'LeakRaise':
+    if act in ('LeakRaise', 'ArgError'):
         return [] if child else [('drv', 'raised')]
     if act == 'Exit':
         return leave + ([] if child else [('drv', 'returned')])
@@ -494,6 +494,8 @@ def post_matches(exp: tuple, got: tuple) -> bool:
     if exp[0] != got[0]:
         return False
     if exp[0] == 'acquire':
+        if len(exp) > 2 and exp[2] and len(got) > 3 and got[3]:
+            return got[3] == exp[2]          # the very CollationManager the behaviour means
         return got[1] is None or got[1] == exp[1]
     if exp[0] == 'set':
         return got[1] == exp[1]
@@ -527,7 +529,7 @@ def render_frames(finfo: dict, mode: str, variety: int) -> None:
             fi['expr'] = plain(fi, fid, vars_)
         elif fi['k'] == 'gen':
             n = fi['yields']
-            ended = [a for a in fi['acts'] if a in ('Exit', 'Return', 'Unwind', 'Abandon')]
+            ended = [a for a in fi['acts'] if a in ('Exit', 'Return', 'Unwind', 'Abandon', 'ArgError')]
             site = GEN_SITES[(variety + fid) % 2]
             more = 0 if ended and ended[-1] in ('Exit', 'Return') else 1
             if site == 'distinct-values':
@@ -535,7 +537,7 @@ def render_frames(finfo: dict, mode: str, variety: int) -> None:
             else:
                 items = [q('a')] * (n + more)
             seq = '(' + ', '.join(items) + ')'
-            if ended and ended[-1] == 'Unwind':     # n items, then an error raised lazily inside the body
+            if ended and ended[-1] in ('Unwind', 'ArgError'):     # n items, then an error raised lazily by the operand
                 item = "concat('a', string($i))" if site == 'distinct-values' else "'a'"
                 seq = f'for $i in 1 to {n + 1} return if ($i = {n + 1}) then error() else {item}'   # '(E)' is eager
             fi['expr'] = f'distinct-values({seq}, {C})' if site == 'distinct-values' else f"index-of({seq}, 'a', {C})"
@@ -552,6 +554,9 @@ def render_frames(finfo: dict, mode: str, variety: int) -> None:
             else:
                 fi['expr'] = LAZY_SITES[0].replace('{E}', plain(kid, kfid, vars_)).replace('{C}', C)
         fi['vars'] = vars_
+        fi['uri'] = vars_[f'c{fid}']
+        if fi['k'] == 'lazy' and finfo.get(fi.get('kid')) is not None:
+            finfo[fi['kid']]['uri'] = vars_.get(f'c{fi["kid"]}')
 
 
 def build_plan(states, path, mode: str, variety: int) -> dict:
@@ -581,6 +586,7 @@ def build_plan(states, path, mode: str, variety: int) -> dict:
         else:
             idx, f = acting_frame(S, act, args)
             fid = mir[t][idx]
+            step['fid'] = fid
             finfo[fid]['acts'].append(act)
             if act in ('Yield', 'YieldHolding'):
                 finfo[fid]['yields'] += 1
@@ -596,6 +602,8 @@ def build_plan(states, path, mode: str, variety: int) -> dict:
         if st['cmd'] and st['cmd'][0] == 'call':
             fi = finfo[st['cmd'][1]]
             st['cmd'] += [fi['k'], fi['expr'], fi['vars']]
+        if st['act'] == 'Acquire':
+            st['posts'][0].append(finfo[st['fid']].get('uri'))
     # what the threads are doing when the behaviour ends
     Dn = states[path[-1][1]]
     waits = {}
@@ -866,20 +874,51 @@ _GRAPHS: dict[str, G] = {}
 
 def classify(g: G, other: G | None, path_edges, res: dict) -> str:
     """Name the action of the OTHER variant that explains a divergence, else 'unmodelled'."""
-    if other is None or res['what'] not in ('event',):
+    if other is None or res['what'] not in ('event', 'final'):
         return 'unmodelled'
-    si = res['step']
     t = res['t']
-    src = g.edges[path_edges[si]][0]
+    observed = tuple(res['observed'])
+    # the divergence may have happened during earlier steps of the thread that have nothing observable
+    # (e.g. LeakRaise of an operand frame): try those source states as well
+    if res['what'] == 'final':      # the thread did something instead of waiting for the lock
+        r = _explain(g, other, g.edges[path_edges[-1]][1], t, [], observed)
+        if r != 'unmodelled':
+            return r
+        si = len(path_edges)
+        cands = []
+    else:
+        si = res['step']
+        cands = [(si, [tuple(p) for p in res['matched']])]
+    for sj in range(si - 1, -1, -1):
+        _, _, a, x = g.edges[path_edges[sj]]
+        if x[0] != t:
+            continue
+        if expected_posts(g.states[g.edges[path_edges[sj]][0]], a, x):
+            break
+        cands.append((sj, []))
+    for sj, matched in cands:
+        src = g.edges[path_edges[sj]][0]
+        r = _explain(g, other, src, t, matched, observed)
+        if r != 'unmodelled':
+            return r
+    return 'unmodelled'
+
+
+def _explain(g: G, other: G, src: int, t: int, matched: list, observed: tuple) -> str:
     # what thread t does next depends on the shared state and on its own frames only; the other
     # threads may be in states that only one variant has
-    sid = other.index.get(g.states[src])
+    st = g.states[src]
+    sid = other.index.get(st)
     if sid is None:
-        sid = other.proj(t).get(G.key(g.states[src], t))
+        sid = other.proj(t).get(G.key(st, t))
+    if sid is None:
+        # a lazy frame that is past its __enter__ with the operand still to come exists in the pinned
+        # variant only; when the operand has no observable effect the same events mean "operand done"
+        frs = tuple(tla.FrozenDict(dict(f, kid='done')) if f['k'] == 'lazy' and f['kid'] == 'todo'
+                    and f['pc'] not in ('start', 'susp') else f for f in st['frames'][t - 1])
+        sid = other.proj(t).get((st['inst'], st['lc0'], st['lc'], st['owner'], frs))
     if sid is None:
         return 'unmodelled'
-    matched = [tuple(p) for p in res['matched']]
-    observed = tuple(res['observed'])
     seen = {sid}
     dq = collections.deque([sid])
     while dq:
@@ -889,7 +928,7 @@ def classify(g: G, other: G | None, path_edges, res: dict) -> str:
             if args[0] != t:
                 continue
             posts = expected_posts(other.states[s], act, args)
-            if not posts and (act in SILENT):
+            if not posts:                 # nothing observable: look further
                 if d not in seen:
                     seen.add(d)
                     dq.append(d)
@@ -912,7 +951,15 @@ def replay_job(job):
     if res['kind'] == 'diverge' and res['observed'] and res['observed'][0] in ('hung', 'no_ack'):
         res = execute_plan(plan, timeout=90.0)      # a loaded machine is not a hang: ask again, patiently
     acts = [g.edges[ei][2] for ei in pe]
-    devs = [a for a in acts if a in DEVIATIONS]
+    devs = []
+    for k, (_, _, a, x) in enumerate(path):
+        if a not in DEVIATIONS:
+            continue
+        if a == 'LeaveHolding':      # not observable (and harmless) when the operand takes no lock
+            nxt = [y for (_, _, b, y) in path[k + 1:] if b == 'CallArg' and y[0] == x[0]]
+            if nxt and LOC[nxt[0][1]] is None:
+                continue
+        devs.append(a)
     Dn = g.states[path[-1][1]]
     rec = {'variant': variant, 'mode': mode, 'len': len(pe), 'matched': res.get('matched_steps', 0),
            'result': res['kind'], 'devs': devs, 'verdict': 'pass', 'events': res.get('events', 0),
@@ -1654,8 +1701,14 @@ REPLAY_CONFIGS = {
     ],
 }
 DESIGN_CONFIGS = {
-    'quick': dict(threads=2, colls=['L1', 'U2'], kinds=ALL_KINDS, maxcalls=2, configs=ALL_CONFIGS[:3]),
-    'thorough': dict(threads=3, colls=['L1', 'U2'], kinds=ALL_KINDS, maxcalls=2, configs=ALL_CONFIGS[:3], inits=('C', 'L1')),
+    'quick': [('design-property', dict(threads=2, colls=['L1', 'U2'], kinds=ALL_KINDS, maxcalls=2, configs=ALL_CONFIGS[:3]))],
+    'thorough': [
+        ('design-property', dict(threads=2, colls=['cp', 'L1', 'U2'], kinds=ALL_KINDS, maxcalls=2, configs=ALL_CONFIGS[:3])),
+        ('design-property-3thr', dict(threads=3, colls=['L1', 'U2'], kinds=ALL_KINDS, maxcalls=1, configs=ALL_CONFIGS[:3],
+                                      inits=('C', 'L1'))),
+        ('design-property-3calls', dict(threads=2, colls=['L1', 'U2'], kinds={'plain', 'gen'}, maxcalls=3,
+                                        configs=ALL_CONFIGS[:3], transient=True)),
+    ],
 }
 LIVE_CONFIG = dict(threads=2, colls=['L1', 'U2'], kinds=ALL_KINDS, maxcalls=1, configs=ALL_CONFIGS[:3])
 LIVE_CONFIG_THOROUGH = dict(threads=3, colls=['L1', 'U2'], kinds={'plain', 'gen'}, maxcalls=1, configs=ALL_CONFIGS[:3], depth=2)
@@ -1749,7 +1802,8 @@ def run(chk: core.Check) -> None:
     tasks = []
     ex = ThreadPoolExecutor(max_workers=5)
     design = DESIGN_CONFIGS[tier]
-    tasks.append(ex.submit(tlc_lock, 'design-property', _consts(**design), SAFETY, workers=8))
+    for dname, dkw in design:
+        tasks.append(ex.submit(tlc_lock, dname, _consts(**dkw), SAFETY, workers=8))
     live = LIVE_CONFIG
     tasks.append(ex.submit(tlc_lock, 'live-property', _consts(**live), (), ['EveryCallReturns'], 'FairSpec'))
     if tier == 'thorough':
@@ -1798,7 +1852,7 @@ def run(chk: core.Check) -> None:
     print(f'  stage B: {len(results) + 4} TLC tasks  {time.time() - t0:.1f}s', flush=True)
 
     # the design
-    for name in ('design-property', 'live-property', 'live-property-3thr', 'globals'):
+    for name in [d[0] for d in design] + ['live-property', 'live-property-3thr', 'globals']:
         if name in results:
             r = tla.require_ok(results[name][0], name, min_distinct=40)
             if _live_re.search(r.output):
@@ -1819,7 +1873,7 @@ def run(chk: core.Check) -> None:
     chk.model('CollationLock/pinned-live (violated as expected)', r)
     chk.coverage['pinned_counterexamples'] = cex
     chk.coverage['constants'] = {
-        'design': {k: (sorted(v) if isinstance(v, (set, frozenset)) else v) for k, v in design.items()},
+        'design': {n: {k: (sorted(v) if isinstance(v, (set, frozenset)) else v) for k, v in kw.items()} for n, kw in design},
         'replay': {n: {k: (sorted(v) if isinstance(v, (set, frozenset)) else v) for k, v in kw.items()}
                    for n, kw in REPLAY_CONFIGS[tier]},
         'globals': {k: sorted(v) for k, v in GLOBALS_CONSTS[tier].items()}}
@@ -1854,7 +1908,8 @@ def run(chk: core.Check) -> None:
         jobs = []
         for variant in ('property', 'pinned'):
             g = _GRAPHS[variant]
-            keep = (lambda e: not (e[2] == 'Call' and e[3][2] == 'lazy')) if variant == 'property' else (lambda e: True)
+            keep = (lambda e: not (e[2] == 'ArgError' or (e[2] == 'Call' and e[3][2] == 'lazy'))) if variant == 'property' \
+                else (lambda e: True)
             paths, covered = cover_paths(g, keep, rnd)
             edges_total[variant] = (covered, len(g.edges))
             for i, p in enumerate(paths):
